@@ -309,6 +309,30 @@ pub fn pattern_pool(rng: &mut Prng, class_paren: bool) -> Vec<Pat> {
     pool
 }
 
+/// Haystacks that are the stored pattern's own SOURCE text: the regex string itself, the string of a token prefix (a node prefix),
+/// the un-escaped text (literals as written, groups with their parentheses) and the doubly escaped regex string.  A lookup that
+/// confuses the haystack with the pattern text (e.g. compares against `original` instead of matching) shows only on these.
+pub fn source_haystacks(p: &Pat, rng: &mut Prng) -> Vec<String> {
+    let r = render(p);
+    let mut out = vec![r.clone(), regex::escape(&r)];
+    if p.len() > 1 {
+        out.push(render(&p[..rng.range(1, p.len() - 1)].to_vec()));
+    }
+    let mut raw = String::new();
+    for t in p {
+        match t {
+            Tok::L(l) => raw.push_str(l),
+            Tok::G(b) => {
+                raw.push('(');
+                raw.push_str(b);
+                raw.push(')');
+            }
+        }
+    }
+    out.push(raw);
+    out
+}
+
 pub fn haystacks(pool: &[Pat], rng: &mut Prng, n: usize) -> Vec<String> {
     let mut hs: Vec<String> = Vec::new();
     for p in pool {
@@ -320,6 +344,15 @@ pub fn haystacks(pool: &[Pat], rng: &mut Prng, n: usize) -> Vec<String> {
         hs.push(instantiate(&p, rng, near));
     }
     hs.truncate(n.max(pool.len()));
+    // the source texts of up to three of the patterns
+    for _ in 0..3.min(pool.len()) {
+        let p = rng.pick(pool).clone();
+        for h in source_haystacks(&p, rng) {
+            if !hs.contains(&h) {
+                hs.push(h);
+            }
+        }
+    }
     hs
 }
 
@@ -443,11 +476,18 @@ pub fn exh_pool_escapes() -> Vec<Pat> {
 }
 
 pub fn exh_haystacks_escapes() -> Vec<String> {
-    ["/a\\x/b", "/a\\x/c", "/a\\x", "/a\\y", "/a\\(b", "/a(x", "/a\\", "/a", "/A\\X/B"].iter().map(|s| s.to_string()).collect()
+    ["/a\\x/b", "/a\\x/c", "/a\\x", "/a\\y", "/a\\(b", "/a(x", "/a\\", "/a", "/A\\X/B", "/a\\\\(?:x)/b", "/a\\\\(?:x|y)", "/a\\(?:x)/b", "/a\\\\"]
+        .iter()
+        .map(|s| s.to_string())
+        .collect()
 }
 
 pub fn exh_haystacks() -> Vec<String> {
-    ["/ax", "/ax/b", "/ax/c", "/ay/b", "/a.b", "/a-b", "/日42", "/日7日", "/axa", "/", "/a", "/AX/B", ""].iter().map(|s| s.to_string()).collect()
+    // … and pattern source texts (regex string, doubly escaped, un-escaped)
+    ["/ax", "/ax/b", "/ax/c", "/ay/b", "/a.b", "/a-b", "/日42", "/日7日", "/axa", "/", "/a", "/AX/B", "", "/a(?:x)", "/a(?:x)/b", "/a\\.b", "/a\\\\\\.b", "/日(?:[0-9]+)"]
+        .iter()
+        .map(|s| s.to_string())
+        .collect()
 }
 
 /// Run the op list on the REAL tree and return `verif_snapshot()` after every op (used by `gen` for mode real).
@@ -542,8 +582,16 @@ pub fn hint_strings(h: &Hints) -> Vec<String> {
 }
 
 /// The model's case folding covers ASCII and a fixed set of letters: with other cased non-ASCII characters run case-sensitively.
-fn hint_ic_ok(t: &str) -> bool {
-    t.chars().all(|c| c.is_ascii() || "éÉüÜжЖσΣςßẞſİǅ".contains(c) || (!c.is_lowercase() && !c.is_uppercase()))
+pub fn hint_ic_ok(t: &str) -> bool {
+    // mirrors Model/Regex.lean `caseOrbit`: ASCII, Latin-1, ſ İ ı Ǆ ǅ ǆ Ÿ, Greek Α–ω, Cyrillic А–я, ß ẞ, Kelvin, Ångström; anything uncased
+    t.chars().all(|c| {
+        let n = c as u32;
+        n < 0x100
+            || "ſİıǄǅǆŸẞ\u{212A}\u{212B}".contains(c)
+            || (0x391..=0x3C9).contains(&n)
+            || (0x410..=0x44F).contains(&n)
+            || (!c.is_lowercase() && !c.is_uppercase() && c.to_lowercase().eq(std::iter::once(c)) && c.to_uppercase().eq(std::iter::once(c)))
+    })
 }
 
 fn ins(p: &Pat, id: &str, v: usize) -> Value {
@@ -1167,6 +1215,25 @@ fn shape_of(snap: &Value) -> (bool, usize, usize) {
     }
 }
 
+/// Patterns of the leaves whose regex is cached.
+fn collect_cached_leaves(snap: &Value, out: &mut Vec<String>) {
+    match snap.get("kind").and_then(|k| k.as_str()) {
+        Some("leaf") => {
+            if snap.get("compiled").and_then(|c| c.as_bool()).unwrap_or(false) {
+                if let Some(p) = snap.get("pattern").and_then(|p| p.as_str()) {
+                    out.push(p.to_string());
+                }
+            }
+        }
+        Some("node") => {
+            for c in snap.get("children").and_then(|c| c.as_array()).cloned().unwrap_or_default() {
+                collect_cached_leaves(&c, out);
+            }
+        }
+        _ => {}
+    }
+}
+
 fn compiled_count(snap: &Value) -> usize {
     let own = if snap.get("compiled").and_then(|c| c.as_bool()).unwrap_or(false) { 1 } else { 0 };
     own + snap.get("children").and_then(|c| c.as_array()).map(|cs| cs.iter().map(compiled_count).sum()).unwrap_or(0)
@@ -1640,6 +1707,47 @@ pub fn run(case: &Value) -> Obs {
         o.tags = tags;
         return o;
     }
+    if mode == "snap" && ic && oracle_fail.is_none() && dom == Dom::In {
+        // behavioural probe of the case flag of CACHED regexes (`Regex::as_str()` in the hook does not show it): in an ignore_case
+        // tree, a cached leaf must still match a case-swapped instance of its own pattern's literal part
+        let snap = tree.snapshot();
+        let mut cached: Vec<String> = Vec::new();
+        collect_cached_leaves(&snap, &mut cached);
+        for (p, r) in pats.iter().zip(rendered.iter()) {
+            if !cached.contains(r) {
+                continue;
+            }
+            let mut plain = String::new();
+            let mut swapped = String::new();
+            let mut ok = true;
+            for t in p {
+                match t {
+                    Tok::L(l) => {
+                        plain.push_str(l);
+                        swapped.extend(l.chars().map(|c| if c.is_ascii_lowercase() { c.to_ascii_uppercase() } else { c.to_ascii_lowercase() }));
+                    }
+                    Tok::G(b) => match group_def(b).and_then(|g| g.yes.first()) {
+                        Some(y) => {
+                            plain.push_str(y);
+                            swapped.push_str(y);
+                        }
+                        None => ok = false,
+                    },
+                }
+            }
+            if !ok || plain == swapped {
+                continue;
+            }
+            let fresh = build(&format!("^{r}$"), true);
+            if fresh.as_ref().map(|x| x.is_match(&swapped)).unwrap_or(false) && tree.find(&swapped).is_empty() {
+                oracle_fail = Some(format!("ignore_case tree: the cached leaf {r:?} does not match {swapped:?} (a freshly built case-insensitive regex does)"));
+                tags.push("probe:cached-case-flag-failed".to_string());
+                break;
+            }
+            tags.push("probe:cached-case-flag".to_string());
+        }
+    }
+    let case_flag_probe_failed = tags.iter().any(|t| t == "probe:cached-case-flag-failed");
     if mode == "snap" {
         tags.push(format!("depth:{max_depth}"));
         if shape.0 {
@@ -1667,7 +1775,15 @@ pub fn run(case: &Value) -> Obs {
     o.tags = tags;
     o = o.trivial(pats.len() < 2 || (mode != "snap" && !any_hit));
     if let Some(why) = oracle_fail {
-        let sig = if dom == Dom::ClassParen { "class-paren" } else if mode == "snap" { "cached-len" } else { "scan-mismatch" };
+        let sig = if case_flag_probe_failed {
+            "cached-regex-case-flag"
+        } else if dom == Dom::ClassParen {
+            "class-paren"
+        } else if mode == "snap" {
+            "cached-len"
+        } else {
+            "scan-mismatch"
+        };
         o = o.fail(why, sig);
     }
     o
